@@ -1,17 +1,24 @@
 use crate::report::Report;
 
 pub mod c01;
+pub mod c04;
+pub mod c09;
+pub mod c15;
+
+type RunFn = fn(&Report);
+
+pub const CHECKS: &[(&str, &str, RunFn)] = &[
+    ("C01", "fault_enumeration", c01::run),
+    ("C04", "exploration", c04::run),
+    ("C09", "exploration", c09::run),
+    ("C15", "exploration", c15::run),
+];
 
 pub fn lookup(check: &str) -> Option<(&'static str, &'static str)> {
-    Some(match check {
-        "C01" => ("C01", "fault_enumeration"),
-        _ => return None,
-    })
+    CHECKS.iter().find(|c| c.0 == check).map(|c| (c.0, c.1))
 }
 
 pub fn run(check: &str, rep: &Report) {
-    match check {
-        "C01" => c01::run(rep),
-        _ => unreachable!(),
-    }
+    let c = CHECKS.iter().find(|c| c.0 == check).expect("known check");
+    (c.2)(rep)
 }
